@@ -789,13 +789,11 @@ class Blockwise(ArrayExpr):
                     return None  # Non-unit step not supported
 
                 first, last = find_block_range(cumsum, start, stop)
-                if first is None:
-                    block_ranges.append((0, -1))  # Empty
-                    output_adjustments.append(slice(0, 0))
-                elif last < first:
-                    # Empty selection inside the axis: there is no block range
-                    # to keep, and the adjusted chunks of the emptied input
-                    # would not be empty.  Leave the slice above this node.
+                if first is None or last < first:
+                    # Empty selection (inside or beyond the axis): there is no
+                    # block range to keep, and the adjusted chunks of the
+                    # emptied input would not be empty.  Leave the slice above
+                    # this node.
                     return None
                 else:
                     block_ranges.append((first, last))
